@@ -47,7 +47,8 @@ func (g *genCtx) genS(d int) *Node {
 		return ACall("str", g.genN(d-1))
 	case 4:
 		n := g.r.Intn(4)
-		return ACall("substr", g.genS(d-1), AInt(0), AInt(n))
+		st := []int{0, 0, 1, 2}[g.r.Intn(4)]
+		return ACall("substr", g.genS(d-1), AInt(st), AInt(st+n))
 	case 5:
 		return ACall("join", AStr(g.pick(",", "-", "")), g.genS(d-1), g.genN(d-1))
 	case 6:
